@@ -265,8 +265,7 @@ EDITS = [
       new="""	return (f.L.Matches(bits) || f.R.Matches(bits)) && !(f.L.Matches(bits) && f.R.Matches(bits))"""),
  # ---------------- C05 ----------------
  dict(prop="C05", name="drop target guard in newEntitiesNoNotify", kind="M", file=WI, expect="C05.R1",
-      old="""	if count < 1 {
-		panic("can only create a positive number of entities")
+      old="""		panic("can't create more than MaxUint32 entities")
 	}
 
 	if !target.IsZero() && !w.entityPool.Alive(target) {
@@ -277,8 +276,7 @@ EDITS = [
 	if len(comps) > 0 {
 		arch = w.findOrCreateArchetype(arch, comps, nil, target)
 	}""",
-      new="""	if count < 1 {
-		panic("can only create a positive number of entities")
+      new="""		panic("can't create more than MaxUint32 entities")
 	}
 
 	arch := w.archetypes.Get(0)
